@@ -446,6 +446,12 @@ class LmtpClient(Client):
 
         return lhlo
 
+    def mailfrom(self, address, data_size=None, auth=None):
+        # A new MAIL starts a new transaction: the recipients of one that was
+        # abandoned without RSET (e.g. DATA refused) are owed no reply.
+        self.rcpttos = []
+        return super(LmtpClient, self).mailfrom(address, data_size, auth)
+
     def rcptto(self, address):
         reply = super(LmtpClient, self).rcptto(address)
         self.rcpttos.append((address, reply))
